@@ -53,7 +53,7 @@ def run(d, module, cfg_text, workers=8, timeout=600, extra=(), dump_trace=True, 
     r = TlcResult()
     t0 = time.time()
     e = dict(os.environ)
-    e.setdefault("JAVA_TOOL_OPTIONS", "-Xss64m")
+    e["JAVA_TOOL_OPTIONS"] = "-XX:+UseParallelGC -Xss64m -Xmx%s -Xms%s" % (heap, heap)
     if env:
         e.update(env)
     try:
@@ -101,19 +101,14 @@ def parse_output(r):
 
 # --------------------------------------------------------------------------------- state graph
 
-_node = re.compile(r'^(-?\d+) \[label="(.*?)",(style = filled|tooltip=)')
-_edge = re.compile(r'^(-?\d+) -> (-?\d+) ')
+JAVA_OPTS = "-XX:+UseParallelGC -Xss64m -Xmx%s -Xms%s"
+
+_edge = re.compile(r'^<<"E", <<(-?\d+), (-?\d+)>>, <<(-?\d+), (-?\d+)>>, "(.*)">>$')
+_init = re.compile(r'^<<"I", <<(-?\d+), (-?\d+)>>, "(.*)">>$')
 
 
-def _field(label, name):
-    """the printed value of variable `name` inside a dot node label"""
-    key = "/\\\\ " + name + " = "
-    i = label.find(key)
-    if i < 0:
-        return None
-    j = label.find("\\n/\\\\ ", i + len(key))
-    text = label[i + len(key): j if j >= 0 else len(label)]
-    return text.replace("\\n", "\n").replace('\\"', '"').replace("\\\\", "\\")
+def _unq(s):
+    return json.loads('"' + s + '"')
 
 
 class Graph:
@@ -122,69 +117,58 @@ class Graph:
         self.succ = {}      # node -> list of nodes
         self.inits = []     # initial nodes
         self.prog = {}      # init node -> program
-        self.done = set()   # nodes where AllDone holds (every thread finished)
 
     def edges(self):
         return sum(len(v) for v in self.succ.values())
 
 
-def graph(d, module, cfg_text, timeout=900, heap="8g"):
-    """run TLC with -dump dot through a FIFO and keep only labels and edges"""
+def graph(d, module, cfg_text, timeout=900, heap="6g", workers=12):
+    """run TLC on a module that EXTENDS Gen with `ACTION_CONSTRAINT EmitEdge` / `INVARIANT EmitInit`
+    and rebuild the labelled state graph from the printed edges"""
     with open(os.path.join(d, module + ".cfg"), "w") as f:
-        f.write(cfg_text)
-    fifo = os.path.join(d, module + "_graph.dot")
-    if os.path.exists(fifo):
-        os.remove(fifo)
-    os.mkfifo(fifo)
+        f.write(cfg_text + "\nACTION_CONSTRAINT EmitEdge\nINVARIANT EmitInit\n")
     g = Graph()
-    err = []
-
-    def reader():
-        try:
-            with open(fifo, "r") as f:
-                for line in f:
-                    m = _edge.match(line)
-                    if m:
-                        g.succ.setdefault(m.group(1), []).append(m.group(2))
-                        continue
-                    m = _node.match(line)
-                    if m:
-                        nid, label = m.group(1), m.group(2)
-                        if nid in g.lbl:
-                            continue
-                        g.succ.setdefault(nid, [])
-                        g.lbl[nid] = tlaval.parse(_field(label, "lbl"))
-                        if g.lbl[nid]["ev"] == "init":
-                            g.inits.append(nid)
-                            g.prog[nid] = tlaval.parse(_field(label, "prog"))
-        except Exception as ex:  # noqa
-            err.append(repr(ex))
-
-    th = threading.Thread(target=reader)
-    th.start()
-    cmd = ["tlc", "-workers", "1", "-metadir", os.path.join(d, "meta_" + module), "-cleanup",
-           "-noGenerateSpecTE", "-config", module + ".cfg", "-dump", "dot,actionlabels", fifo, module + ".tla"]
+    cmd = ["tlc", "-workers", str(workers), "-metadir", os.path.join(d, "meta_" + module), "-cleanup",
+           "-noGenerateSpecTE", "-config", module + ".cfg", module + ".tla"]
     r = TlcResult()
     t0 = time.time()
     e = dict(os.environ)
-    e.setdefault("JAVA_TOOL_OPTIONS", "-Xss64m")
+    e["JAVA_TOOL_OPTIONS"] = JAVA_OPTS % (heap, heap)
+    p = subprocess.Popen(cmd, cwd=d, stdout=subprocess.PIPE, stderr=subprocess.STDOUT, text=True, env=e)
+    timer = threading.Timer(timeout, p.kill)
+    timer.start()
+    other = []
+    seen = set()
     try:
-        p = subprocess.run(cmd, cwd=d, stdout=subprocess.PIPE, stderr=subprocess.STDOUT, timeout=timeout, text=True, env=e)
-        r.out = p.stdout
-    except subprocess.TimeoutExpired as ex:
-        r.timeout = True
-        r.out = str(ex.stdout)
-        # unblock the reader
-        try:
-            fd = os.open(fifo, os.O_WRONLY | os.O_NONBLOCK)
-            os.close(fd)
-        except OSError:
-            pass
-    th.join(timeout=60)
-    os.remove(fifo)
+        for line in p.stdout:
+            if line.startswith('<<"E"'):
+                m = _edge.match(line.rstrip("\n"))
+                if not m:
+                    other.append("BAD EDGE LINE " + line[:200])
+                    continue
+                u = m.group(1) + ":" + m.group(2)
+                v = m.group(3) + ":" + m.group(4)
+                if (u, v) in seen:
+                    continue
+                seen.add((u, v))
+                g.succ.setdefault(u, []).append(v)
+                g.succ.setdefault(v, [])
+                if v not in g.lbl:
+                    g.lbl[v] = json.loads(_unq(m.group(5)))
+            elif line.startswith('<<"I"'):
+                m = _init.match(line.rstrip("\n"))
+                u = m.group(1) + ":" + m.group(2)
+                if u not in g.prog:
+                    g.inits.append(u)
+                    g.prog[u] = json.loads(_unq(m.group(3)))
+                    g.succ.setdefault(u, [])
+            else:
+                other.append(line)
+    finally:
+        timer.cancel()
+    p.wait()
+    r.out = "".join(other)
+    r.timeout = p.returncode not in (0, 12, 13) and "Finished in" not in r.out
     r.wall = time.time() - t0
     parse_output(r)
-    if err:
-        r.violation = ("error", "graph reader: " + err[0])
-        r.ok = False
     return r, g
